@@ -115,4 +115,8 @@ theorem stage_forms_unbatched_ok :
 theorem instance_state_writes_none : Gen.C08.instance_state_writes.none = true := by decide
 theorem classes_scanned_pos : 30 ≤ Gen.C08.classes_scanned := by decide
 
+/-- **no stage class has a data-dependent early `return sample` the model does not know** ("nothing to crop", "already the
+right size", … shortcuts skip the modelled program of the stage) -/
+theorem data_early_returns_eq : Gen.C08.data_early_returns = dataEarlyReturns := by decide
+
 end DirectVerif.Bridge.C08
